@@ -10,7 +10,49 @@ use crate::props::c10::{framing_scripts, gen_plan};
 use crate::refm::resolver::*;
 use scpi::Context;
 
+/// data elements that drive every typed conversion, incl. multi-dimensional channel lists and numeric lists
+fn conversion_data(rng: &mut Rng) -> Vec<u8> {
+    let pool: &[&[u8]] = &[
+        b"(@1)", b"(@1!2)", b"(@1!2!3)", b"(@1!2:3!4,5!6!7:8!9!10,11)", b"(@-1!+2,3)", b"(1,2:3,4.5e3)", b"(1:2)", b"12", b"-12.5e3", b"1e400", b"#HFF", b"#B101", b"'text'", b"\"a\"\"b\"", b"#13abc",
+        b"MAX", b"MIN", b"DEF", b"ON", b"OFF", b"ONCE", b"INF", b"NAN", b"UP", b"1 V", b"2.5 MHZ", b"3 MS", b"10 CEL", b"4 VPK", b"5 DBMV", b"POTATO", b"1.5 KOHM",
+    ];
+    let n = 1 + rng.usize(3);
+    let mut v = Vec::new();
+    for i in 0..n {
+        if i > 0 {
+            v.push(b',');
+        }
+        let d: &[u8] = *rng.pick(pool);
+        v.extend_from_slice(d);
+    }
+    v
+}
+
 pub fn run(cfg: &Cfg, rep: &mut Report) {
+    // (0) typed parameter conversions: no heap allocation inside Node::run whatever the handler converts to
+    let n = cfg.n(32, 60_000, 2_000_000);
+    run_cases(cfg, "conversions", n, rep, |rng, ctx| {
+        let conv = ALL_CONVS[(ctx.index % ALL_CONVS.len() as u64) as usize];
+        let built = crate::props::c01_boundary::single_conversion_tree(conv);
+        let mut dev = Dev::new();
+        dev.log.reserve(1 << 12);
+        dev.hook.reserve(16);
+        let mut c = Context::default();
+        for _ in 0..8 {
+            bump(ctx, 1);
+            let mut msg = if rng.bool() { b"A ".to_vec() } else { b"A? ".to_vec() };
+            msg.extend_from_slice(&conversion_data(rng));
+            dev.clear();
+            let cap = *rng.pick(&[64usize, 128, 256, 4096]);
+            let cr = run_cap(cap, built.root(), &msg, &mut dev, &mut c).unwrap();
+            ctx.count("runs.allocation-counted");
+            ctx.count(&format!("conversion-target.{:?}", conv));
+            ctx.nontrivial(mix(hash_bytes(&msg), conv as u64));
+            if cr.allocs != 0 {
+                ctx.violation(&format!("C11:heap-allocation-during-run:conversion-{:?}", conv), jobj(&[("message", jbytes(&msg)), ("conversion", jstr(&format!("{:?}", conv))), ("allocations", cr.allocs.to_string()), ("result", jstr(&format!("{:?}", cr.result.as_ref().err().map(|e| e.get_code()))))]));
+            }
+        }
+    });
     let ntrees = cfg.n(48, 30_000, 600_000);
     let nmsg = cfg.n(3, 12, 25) as usize;
     run_cases(cfg, "capacity", ntrees, rep, |rng, ctx| {
